@@ -65,6 +65,10 @@ def session(draw):
     if drop:
         plan.insert(draw(st.integers(0, len(plan))), {'do': 'drop', 'how': drop})
     local = draw(st.sampled_from([None, None, None, 0.0, 0.2, 2.0, 7.0]))
+    if lossy and draw(st.booleans()):
+        # an activated node: updates keep arriving (several per second), the connection is never idle
+        return {'kind': 'session', 'callers': callers, 'plan': plan, 'local_disconnect': None, 'stream': True,
+                'schedule': draw(st.lists(st.integers(0, 4), min_size=10, max_size=250))}
     return {'kind': 'session', 'callers': callers, 'plan': plan, 'local_disconnect': local,
             'schedule': draw(st.lists(st.integers(0, 4), min_size=10, max_size=250))}
 
@@ -139,6 +143,7 @@ class World:
         self.drop_time = None
         self.drop_mark = None
         self.refuse = False
+        self.stop_stream = False
 
     def factory(self, addr, index):
         if self.refuse:
@@ -240,6 +245,13 @@ def run_session(case, preempt=None):
             return
         threads = []
         peer_thread = s.spawn(world.run_plan, len(case['callers']), _name='T:peer')
+        stream_thread = None
+        if case.get('stream'):
+            def stream():
+                while not world.stop_stream and world.peers and not world.peers[0].closed and not world.peers[0].silent:
+                    world.peers[0].push('update m:_p [7.5, {"t": 3}]')
+                    dsched.v_sleep(0.4)
+            stream_thread = s.spawn(stream, _name='T:stream')
         t_start = dsched.v_time()
         for i, c in enumerate(case['callers']):
             def caller(i=i, c=c):
@@ -264,6 +276,9 @@ def run_session(case, preempt=None):
         for t in threads:
             t.join()
         peer_thread.join()
+        world.stop_stream = True
+        if stream_thread:
+            stream_thread.join()
         world.refuse = True
         try:
             client.disconnect()
@@ -405,7 +420,16 @@ def check(ctx, case, preempt=None):
                                 f'+{mine[0]["ta"] - t0:.2f}; requests {[(r["nonce"], r["action"], r["caller"], r["answered"]) for r in world.requests]!r}')
                     return
                 if lossy:
-                    # a lost request, or one parked behind a lost request with the same key, legitimately ends in a time-out
+                    # a lost request, or one parked behind a lost request with the same key, legitimately ends in a time-out.
+                    # but a request issued well after all earlier requests with its key have timed out is not parked any more:
+                    # it must at least be transmitted (change requests carry the caller's number)
+                    earlier = [results[j] for j, cj in enumerate(case['callers']) if j != i and cj['key'] == c['key'] and results[j][4] < t0]
+                    if action == 'change' and not c.get('bad') and not disturbed and not mine and earlier and \
+                            all(e[0] == 'exc' and e[1] == 'TimeoutError' and e[5] + 1.5 < t0 for e in earlier):
+                        ctx.finding('request-never-transmitted:after-earlier-timeout-of-same-key', sub,
+                                    f'caller {i} {c["key"]} issued at +{t0:.1f}, after the earlier ones timed out at '
+                                    f'{[round(e[5], 1) for e in earlier]}; the peer never saw it: {[(r["action"], r["caller"]) for r in world.requests]!r}')
+                        return
                     ctx.label('timeout-after-lost-request')
                     if elapsed > 13.0 + 1.5:
                         ctx.finding('caller-blocked-too-long', sub, f'caller {i}: {elapsed:.1f}')
